@@ -154,6 +154,13 @@ def d2_quad(ctx):
     else:
         vals = [const(e) for e in bs[0].value.elts]
         ctx.check(rule, key, vals == [-1, 1], 'd/da = -f(a), d/db = +f(b)', 'sign table is %s for bounds [a, b]' % vals, m.loc(bs[0]))
+    # the list of derivative integrals / boundary terms starts empty and only grows by the terms checked below: a branch that fills it with
+    # constants (e.g. zeros 'because the range is empty') drops the boundary terms, which do not vanish for equal limits
+    dass = [s_ for s_ in statements(f) if isinstance(s_, ast.Assign) and any(unparse(t_) == 'derivint' for t_ in s_.targets)]
+    nonempty = [s_ for s_ in dass if not (isinstance(s_.value, ast.List) and not s_.value.elts)]
+    ctx.check(rule, 'integrate.py:quad#derivint-only-appended', len(dass) >= 1 and not nonempty, 'derivint = [] and then one appended term per observable parameter / limit',
+              'derivint is assigned `%s`: the contributions -f(a) da + f(b) db of observable limits are replaced by constants' % (unparse(nonempty[0].value) if nonempty else ''),
+              m.loc(nonempty[0]) if nonempty else None)
     # limit contributions: bsign[i] * func(pval, bval[i]) for i with isobs_b[i]
     apps = [c for c in walk(f) if isinstance(c, ast.Call) and isinstance(c.func, ast.Attribute) and c.func.attr == 'append' and unparse(c.func.value) == 'derivint']
     lim = [c for c in apps if 'bsign' in unparse(c)]
